@@ -127,3 +127,13 @@ pub fn jstr(s: &str) -> String {
     o.push('"');
     o
 }
+
+/// is this panic message one of the call-shape validation panics (the only panics an ill-shaped call may end in)?
+pub fn is_validation_panic(msg: &str) -> bool {
+    msg.contains("Provided FFT buffer was too small")
+        || msg.contains("must be a multiple of FFT length")
+        || msg.contains("Not enough scratch space was provided")
+        || msg.contains("must have the same length")
+        || msg.contains("does not match destination slice length") // Butterfly1: copy_from_slice
+        || msg.contains("copy_from_slice")
+}
